@@ -20,6 +20,14 @@ func init() {
 		c.R.Trusted = []string{"TLC 1.8.0 / SANY", "protobuf-go protoregistry / protodesc / prototext", "Go reflect", "dynamicpb (lock-step reference for getter/Reset transitions)"}
 		dir := filepath.Join(c.S.Dir, "coherence")
 		os.MkdirAll(dir, 0o755)
+		// a generated package that panics while registering its descriptors / resolving its message
+		// and field descriptors (init) is the bluntest incoherence between package and schema
+		for _, g := range c.S.Groups {
+			if g.InitPanic != "" {
+				c.R.Violate("coherence:init-panic", fmt.Sprintf("group=%s the generated package panics when it is loaded: %s", g.Group, trunc(g.InitPanic, 600)),
+					map[string]any{"engine": "gen", "group": g.Group, "files": g.Files})
+			}
+		}
 		// (1) obligations enumerated by Schema.tla from the schemas given to the generator
 		corpusJSON := filepath.Join(dir, "corpus.json")
 		known := filepath.Join(dir, "known.json")
